@@ -189,6 +189,21 @@ CLAIMS.update({
    technique='contract-based deductive verification of the dispatch / forwarding layer (uninterpreted serialisers); bounded byte comparison of the routes incl. the CLI',
    design='4/C12'),
 })
+CLAIMS.update({
+ 'C15': dict(
+   category='other',
+   text='Static frame analysis + bounded stand-ins. Complete over the package source (re-read every run): no function of segno/*.py rebinds a module level name, '
+        'stores through or calls a mutating method on a module level object, or is wrapped by a state-carrying decorator; no function uses a nondeterministic '
+        'primitive (time / random / id / hash / environment / set iteration) outside the documented timestamp sites. Frame obligations: encode, encode_sequence, '
+        'matrix_iter, matrix_iter_verbose, matrix_to_lines are executed by the pyvc interpreter with a mutation hook on representative inputs: every mutated object '
+        'was allocated inside the call. Determinism + empty write frame => history freedom and schedule independence (argued, thread interleavings are not explored). '
+        'BOUNDED (labelled): module-table snapshots, reordered histories, 16 concurrent threads, serialisation leaves the symbol unchanged, and re-encoding with the '
+        'chosen (version, level, mask) and boosting disabled reproduces the matrix, on seeded native calls.',
+   note='Not a proof of thread safety: no interleaving semantics. The scan is syntactic (a write through a local alias of a module level object is only seen by the frame hook on '
+        'interpreted paths and by the bounded snapshots). Idempotence is bounded only.',
+   technique='contract-style frame (assigns-nothing) obligations: package-wide syntactic write / nondeterminism scan + interpreter mutation hook; bounded native stand-ins for histories, threads and idempotence',
+   design='4/C15'),
+})
 NOT_YET = {
 }
 ALL = ['C%02d' % i for i in range(1, 17)]
